@@ -65,6 +65,7 @@ def main(argv=None):
     try:
         from contracts.registry import CONTRACTS
         from contracts import finite
+        from contracts import static_c08  # noqa: F401  (registers its obligations)
     except Exception:
         traceback.print_exc()
         print(f"CHECKER-ERROR property={a.prop}: contracts could not be loaded")
